@@ -12,6 +12,9 @@ from ..weaver_model import WeaverModel
 from .common import show, REPO_RESULT_KIND, S, ModSpec, same, arr_term, unused_params, targ
 from .c08 import model, alias, last_stores
 
+# library calls whose result may have another shape / fewer elements than their argument
+EXTENT_CHANGING = ('lib:numpy.squeeze', 'method:squeeze', 'lib:numpy.unique', 'lib:numpy.compress', 'lib:numpy.trim_zeros', 'lib:numpy.extract', 'lib:numpy.delete',
+                   'lib:numpy.atleast_2d', 'lib:numpy.expand_dims')
 PROC = 'traffic_weaver.process.'
 NOISE = PROC + 'noise_gauss'
 
@@ -70,7 +73,12 @@ def check_scale(ctx):
             return sorted({t_.head for t_ in walk_vals(v_) if isinstance(t_, Term) and (t_.head in ('apply', 'star', 'attr', 'getattr', 'item', 'unsupported')
                                                                                         or t_.head.startswith(('lib:inspect.', 'lib:functools.')))}) \
                 if isinstance(v_, Val) else []
-        if not ok_size and unread(size):
+        reshaped = sorted({t_.head for t_ in walk_vals(size) if isinstance(t_, Term) and t_.head in EXTENT_CHANGING}) if isinstance(size, Val) else []
+        if not ok_size and reshaped:
+            ctx.fail('C15.2', f"{tag}: one noise sample per signal sample (size = a.shape)",
+                     f"the size is the shape of a copy whose extent {reshaped} may change (squeeze turns a one-sample series into a 0-d value; "
+                     f"unique / compress / trim drop samples): {show(size, 120)}", e.loc(), fi.qualname, f"size:{tag}")
+        elif not ok_size and unread(size):
             ctx.unknown('C15.2', f"{tag}: one noise sample per signal sample (size = a.shape)", f"the size argument is built with {unread(size)}: not followed\n"
                                                                                              f"{show(size, 120)}", e.loc(), fi.qualname, f"size:{tag}")
         else:
